@@ -152,7 +152,8 @@ CLAIMED["C12"] = {
              "the new block before freeing the old one and frees it only when the new allocation succeeded; rs_free(NULL) touches nothing; the "
              "buddy tree's bookkeeping on small order values: every node starts with order total - depth, the search goes right exactly when the "
              "left subtree cannot hold the request, every ancestor gets the larger of its children's values, freeing sets a parent to order + 1 "
-             "only when both halves are wholly free, and the size reported for a freed block is 1 << its order. NOT "
+             "only when both halves are wholly free, and the size reported for a freed block is 1 << its order; the requested size reaches the "
+             "size-class computation at full width (no narrowing conversion of the size itself). NOT "
              "decided: that blocks are inside allocator memory, aligned, disjoint and stable over whole operation histories (the rules above are "
              "the local steps such an argument would use, not the argument)."),
     "note": TRUST,
